@@ -72,6 +72,10 @@ func c18Cases() []c18Params {
 				add("cookie-zero", 0, 0)
 				add("other-address", 0, 0)
 				add("other-server", 0, 0)
+				if secret {
+					// two configured secrets of 48 bytes that differ only behind byte 32
+					add("other-server-long-secret", 0, 0)
+				}
 				if !secret {
 					// both server connections are accepted from ONE dtlcp listener with one Config that names no
 					// secret: still one random secret per connection
@@ -202,6 +206,10 @@ func (c18) Run(c *Case, src *vs.Src) *Result {
 	}
 	if p.Variant == "other-server" && p.Secret {
 		secret2 = "another secret, another server.."
+	}
+	if p.Variant == "other-server-long-secret" {
+		secret1 = "0123456789abcdef0123456789abcdef" + "first tail 16 by"
+		secret2 = "0123456789abcdef0123456789abcdef" + "other tail 16 by"
 	}
 	addrA, addrB := simnet.Addr("10.0.0.1:4000"), simnet.Addr("10.0.0.2:4000")
 	srv1, sp1 := mkServer("s1", "server1:443", addrA, secret1)
@@ -372,7 +380,7 @@ func (c18) Run(c *Case, src *vs.Src) *Result {
 			h2.Suites = append(append([]uint16{}, h.Suites...), extra)
 		case "field:compression-append":
 			h2.Compression = append(append([]byte{}, h.Compression...), 0x40)
-		case "other-server", "other-server-empty-secret", "other-server-same-listener":
+		case "other-server", "other-server-empty-secret", "other-server-same-listener", "other-server-long-secret":
 			target = c2 // same address A, second server connection: same configured secret => stateless cookie valid
 			mustAccept = p.Secret && secret1 == secret2
 		}
